@@ -382,7 +382,8 @@ def oracle(specs, starts, out, exact):
             prev = 0.0
             segs = []
             for w in ws:
-                if w["s"] > prev:
+                # (non-dyadic inputs: a gap of a few ulps is float noise of the schedule, not an idle gap)
+                if w["s"] > prev and (exact or w["s"] - prev > 1e-9 * max(abs(prev), abs(w["s"]))):
                     segs.append((prev, w["s"]))
                 prev = w["s"] + w["ts"][-1]
             end = float(tl[-1])
@@ -732,14 +733,14 @@ def correspond(ctx):
         raise Broken("correspondence:C12:import", repr(e))
     cases = list(corpus_cases())
     n_corpus = len(cases)
-    plan = [("discrete", ctx.n(150, 1500)), ("continuous", ctx.n(110, 1100)), ("perqubit", ctx.n(70, 700)),
-            ("mixed", ctx.n(50, 500)), ("ratio", ctx.n(60, 500))]
+    plan = [("discrete", ctx.n(400, 2500)), ("continuous", ctx.n(300, 2000)), ("perqubit", ctx.n(200, 1200)),
+            ("mixed", ctx.n(120, 800)), ("ratio", ctx.n(150, 800))]
     for flavor, n in plan:
         for _ in range(n):
             cases.append(gen_case(rng, flavor, big=ctx.thorough and rng.random() < 0.5))
-    for _ in range(ctx.n(40, 300)):
+    for _ in range(ctx.n(80, 400)):
         cases.append(gen_malformed(rng))
-    for _ in range(ctx.n(70, 400)):
+    for _ in range(ctx.n(120, 600)):
         cases.append(gen_shipped(rng))
 
     prepared = []
